@@ -193,7 +193,7 @@ func runC20(t *testing.T, tape *sim.Tape, tier string) *Outcome {
 func init() {
 	register(&Check{
 		ID: "C20", Bubble: true, Run: runC20,
-		Runs:   map[string]int{"quick": 6000, "thorough": 400000},
+		Runs:   map[string]int{"quick": 40000, "thorough": 1500000},
 		Rule:   "a case is one (pipeline, stream-end fault, delivery schedule) triple: pipelines as in C03 (every command, valid/ill-formed/unknown, QUIT, AUTH, unauthorized state with a required password, injected handler errors) x {FIN after the last request, FIN at a request boundary, FIN inside a request, RST, corrupted frame} x seeded chunking/batching; the span-nesting invariant is evaluated at every tracer, handler and reply-write event; distinct = distinct (config, end mode, cut, chunk sequence) signatures; non-trivial = stream-end fault or chunked delivery",
 		Real:   []string{"redis.Server connection loop and dispatch with a tracer installed", "go-tracing span stack (tracer/common)"},
 		Stub:   []string{"tracer: recording tracer.Tracer/Span double", "transport: simulated net.Conn", "handler: recording double"},
